@@ -227,7 +227,7 @@ std::string exec(const std::vector<std::string> &w) {
   }
   if (op == "param" && n == 4) {
     if (vh::to_u64(w[1]) != g_params.size()) throw BadOp();
-    std::vector<std::uint32_t> dims = vh::csv_u32(w[2]);
+    std::vector<std::uint32_t> dims = vh::csv_u32(w[2] == "-" ? std::string() : w[2]);
     std::vector<float> vals = nums(w[3]);
     std::uint64_t prod = 1;
     if (dims.size() > 8) throw BadOp();
